@@ -46,14 +46,14 @@ CHECKS = {
     ),
     "C14": dict(
         category="fault_enumeration",
-        text="For each generated base program: ~50 definite source-error classes at the statement slots where they are errors by construction, every I/O crash point (each raw open/read/write/close the fault-free run performed, per role, several errnos) of all five entry points, a failing user Writer at every block, and a sample of failing executions repeated in the same process; the status that crosses the API/process boundary is compared with what was injected and with what reached the disk.",
+        text="For each generated base program: ~60 definite source-error classes at the statement slots where they are errors by construction, every I/O crash point (each raw open/read/write/close the fault-free run performed, per role, several errnos) of all five entry points, a failing user Writer at every block, a sample of failing executions repeated in the same process, and failing programs derived from the valid one by deleting a definition (given to an entry point alone or right after the valid original in the same process); the status that crosses the API/process boundary is compared with what was injected and with what reached the disk.",
         design_ref="DESIGN.md 3.1 C14",
         note="Exceptions count as failure reports; message text and the particular non-zero value are not judged; success announcements are recognised by the word 'success' on a log record below WARNING or on stdout.",
         technique="deterministic simulation: complete per-run enumeration of I/O crash points and error slots across entry points",
     ),
     "C15": dict(
         category="fault_enumeration",
-        text="Storage faults applied to the stored source, included files, table files and patch files of valid workloads (EOF at every byte offset of small files, lost/duplicated/swapped chunks, flipped and garbage bytes, NUL sectors, single-character edits inside strings), plus seeded token soup and structured stress workloads, with the assembler run under a deterministic interpreter-step clock; a run that exceeds a budget three orders of magnitude above the fault-free run (or, for loops inside C code, a CPU-time limit) is a replayable non-termination.",
+        text="Storage faults applied to the stored source, included files, table files and patch files of valid workloads (EOF at every byte offset of small files, lost/duplicated/swapped chunks, flipped and garbage bytes, NUL sectors, single-character edits inside strings), plus seeded token soup and structured stress workloads, with the assembler run under a deterministic interpreter-step clock; a run that exceeds a budget three orders of magnitude above the fault-free run (or, for loops inside C code, a CPU-time limit) is a replayable non-termination; locks, condition waits and sleeps go through a blocking seam, so a single-threaded self-deadlock is reported as 'blocks forever' instead of hanging the harness.",
         design_ref="DESIGN.md 3.1 C15",
         note="Exhaustive enumeration of all short token sequences is model checking and is not attempted; loops inside C code (regular expressions) execute no interpreter step and are judged by a CPU-time limit on the child instead of the step clock; explicit loop counts above 64 give no verdict.",
         technique="deterministic simulation: torn/damaged source enumeration under a deterministic step clock",
